@@ -3118,7 +3118,7 @@ func (lbc *LoadBalancerController) getEndpointsForPortFromEndpointSlices(endpoin
 	var err error
 
 	for _, port := range svc.Spec.Ports {
-		if (backendPort.Name == "" && port.Port == backendPort.Number) || port.Name == backendPort.Name {
+		if (backendPort.Name == "" && port.Port == backendPort.Number) || (backendPort.Name != "" && port.Name == backendPort.Name) {
 			targetPort, err = lbc.getTargetPort(port, svc)
 			if err != nil {
 				return nil, fmt.Errorf("error determining target port for port %v in Ingress: %w", backendPort, err)
@@ -3194,7 +3194,7 @@ func getPodOwnerTypeAndName(pod *api_v1.Pod) (parentType, parentName string) {
 
 func (lbc *LoadBalancerController) getServicePortForIngressPort(backendPort networking.ServiceBackendPort, svc *api_v1.Service) *api_v1.ServicePort {
 	for _, port := range svc.Spec.Ports {
-		if (backendPort.Name == "" && port.Port == backendPort.Number) || port.Name == backendPort.Name {
+		if (backendPort.Name == "" && port.Port == backendPort.Number) || (backendPort.Name != "" && port.Name == backendPort.Name) {
 			return &port
 		}
 	}
